@@ -406,6 +406,147 @@ async fn many_subscribers(ctx: &mut Ctx, ty: &str, nsubs: usize, npub: usize, se
     }
 }
 
+/// Real TCP, multi-thread runtime: the publisher publishes in a tight loop while
+/// subscribers keep changing their subscriptions (a burst of subscribe/unsubscribe pairs
+/// each). Publishing never waits for a subscriber — in particular not for ever.
+/// Runs in a child process: if publisher and subscription handling block each other the
+/// whole runtime stops, and only an outside observer can tell.
+pub fn child_sub_storm(args: &[String]) -> i32 {
+    use crate::rig::{self, Raw, ReadEnd};
+    use std::sync::atomic::{AtomicBool, AtomicU64, Ordering};
+    use std::sync::Arc;
+    use std::time::Duration;
+    let ty = args.first().cloned().unwrap_or_else(|| "PUB".into());
+    let nsubs: usize = args.get(1).and_then(|x| x.parse().ok()).unwrap_or(2);
+    let npub: u64 = args.get(2).and_then(|x| x.parse().ok()).unwrap_or(20_000);
+    let published = Arc::new(AtomicU64::new(0));
+    let changes = Arc::new(AtomicU64::new(0));
+    let done = Arc::new(AtomicBool::new(false));
+    // progress reporter on a plain OS thread: it keeps talking even if every runtime worker is stuck
+    {
+        let (published, changes, done) = (published.clone(), changes.clone(), done.clone());
+        std::thread::spawn(move || {
+            let mut last = (u64::MAX, 0u32);
+            loop {
+                std::thread::sleep(Duration::from_millis(250));
+                if done.load(Ordering::SeqCst) {
+                    return;
+                }
+                let p = published.load(Ordering::SeqCst);
+                let same = if p == last.0 { last.1 + 1 } else { 0 };
+                last = (p, same);
+                if same >= 24 {
+                    // six seconds without a single publish completing
+                    println!("SUBSTORM {}", json!({"stuck": true, "published": p, "subscription_changes": changes.load(Ordering::SeqCst)}));
+                    std::process::exit(0);
+                }
+            }
+        });
+    }
+    let (res, _) = rig::run(4, async {
+        let mut sock = Sock::new(&ty, None);
+        let ep = sock.bind(&rig::bind_endpoint("tcp4")).await?;
+        let mut tasks = Vec::new();
+        for k in 0..nsubs {
+            let (ep, changes, done) = (ep.clone(), changes.clone(), done.clone());
+            tasks.push(tokio::spawn(async move {
+                let mut raw = Raw::connect(&ep).await.map_err(|e| e.to_string())?;
+                raw.handshake(if k % 2 == 0 { "SUB" } else { "XSUB" }, None).await?;
+                raw.send_msg(&[vec![1u8, b't']]).await?;
+                let mut i = 0u64;
+                while !done.load(Ordering::SeqCst) {
+                    // a burst of changes that cancel out, written back to back
+                    let mut burst = Vec::new();
+                    for _ in 0..20 {
+                        burst.extend(rc::message(&[vec![1u8, b'A', (i % 7) as u8]]));
+                        burst.extend(rc::message(&[vec![0u8, b'A', (i % 7) as u8]]));
+                        i += 1;
+                    }
+                    if raw.write_all(&burst).await.is_err() {
+                        break;
+                    }
+                    changes.fetch_add(40, Ordering::SeqCst);
+                    // and keep reading what is published
+                    loop {
+                        match raw.read_msg(Duration::from_millis(0)).await {
+                            Ok(_) => {}
+                            Err(ReadEnd::Timeout) => break,
+                            Err(_) => return Ok::<(), String>(()),
+                        }
+                    }
+                    tokio::task::yield_now().await;
+                }
+                Ok(())
+            }));
+        }
+        tokio::time::sleep(Duration::from_millis(50)).await;
+        for i in 0..npub {
+            let mut m: Frames = vec![b"t".to_vec()];
+            m.extend(rc::tagged(1, i as u32, &[8]));
+            sock.send(&m).await.map_err(|e| e.text)?;
+            published.fetch_add(1, Ordering::SeqCst);
+            if ty == "XPUB" && i % 8 == 0 {
+                let _ = tokio::time::timeout(Duration::from_millis(0), sock.recv()).await;
+            }
+        }
+        done.store(true, Ordering::SeqCst);
+        for t in tasks {
+            let _ = tokio::time::timeout(Duration::from_secs(2), t).await;
+        }
+        let _ = tokio::time::timeout(Duration::from_secs(2), sock.close()).await;
+        Ok::<(), String>(())
+    });
+    done.store(true, Ordering::SeqCst);
+    match res {
+        Ok(()) => {
+            println!("SUBSTORM {}", json!({"stuck": false, "published": published.load(Ordering::SeqCst), "subscription_changes": changes.load(Ordering::SeqCst)}));
+            0
+        }
+        Err(e) => {
+            println!("SUBSTORM-ERROR {e}");
+            1
+        }
+    }
+}
+
+fn sub_storm_case(ctx: &mut Ctx, case: &Value) {
+    use std::process::{Command, Stdio};
+    let ty = s(case, "ty").to_string();
+    let exe = std::env::current_exe().expect("current_exe");
+    let out = Command::new(exe)
+        .args(["child", "substorm", &ty, &u(case, "subs").to_string(), &u(case, "npub").to_string()])
+        .stdout(Stdio::piped())
+        .stderr(Stdio::null())
+        .output();
+    let text = match out {
+        Ok(o) => String::from_utf8_lossy(&o.stdout).into_owned(),
+        Err(e) => {
+            ctx.inconclusive(format!("C12 storm: cannot run child: {e}"));
+            return;
+        }
+    };
+    let Some(line) = text.lines().find(|l| l.starts_with("SUBSTORM ")) else {
+        ctx.inconclusive(format!("C12 storm {ty}: {}", text.lines().last().unwrap_or("no output")));
+        return;
+    };
+    let v: Value = serde_json::from_str(&line["SUBSTORM ".len()..]).unwrap_or(Value::Null);
+    ctx.add("rig_publishes_during_subscription_storms", u(&v, "published"));
+    ctx.add("rig_subscription_changes_during_publishing", u(&v, "subscription_changes"));
+    if v["stuck"].as_bool().unwrap_or(false) {
+        ctx.violation_with(
+            &format!("C12/rig/publisher-stuck-during-subscription-changes/{ty}"),
+            format!(
+                "{ty} over TCP on a 4-worker runtime, {} subscribers changing subscriptions in bursts: after {} publishes (of {}) and {} subscription changes no publish completed for 6 s",
+                u(case, "subs"),
+                u(&v, "published"),
+                u(case, "npub"),
+                u(&v, "subscription_changes")
+            ),
+            case.clone(),
+        );
+    }
+}
+
 impl Prop for C12 {
     fn id(&self) -> &'static str {
         "C12"
@@ -414,6 +555,9 @@ impl Prop for C12 {
     fn cases(&self, tier: Tier, seed: u64) -> Vec<Value> {
         let mut v = Vec::new();
         for ty in ["PUB", "XPUB"] {
+            for subs in [1usize, 3] {
+                v.push(json!({"kind": "storm", "ty": ty, "subs": subs, "npub": tier.pick(20_000u64, 200_000)}));
+            }
             v.push(json!({"kind": "many", "ty": ty, "subs": 96, "npub": 25, "seed": mix(seed ^ 0x96)}));
             v.push(json!({"kind": "many", "ty": ty, "subs": 200, "npub": 10, "seed": mix(seed ^ 0x200)}));
             for n in 2..=5usize {
@@ -433,6 +577,10 @@ impl Prop for C12 {
         ctx.eval(hash_str(&case.to_string()), true);
         ctx.sample("run", || case.clone());
         let ty = s(case, "ty").to_string();
+        if s(case, "kind") == "storm" {
+            sub_storm_case(ctx, case);
+            return;
+        }
         if s(case, "kind") == "many" {
             sim::run(many_subscribers(ctx, &ty, u(case, "subs") as usize, u(case, "npub") as usize, u(case, "seed"), case));
             return;
@@ -444,6 +592,8 @@ impl Prop for C12 {
         vec![
             ("subscription_changes_sent_by_a_stalled_subscriber", 100),
             ("publishes", 20_000),
+            ("rig_publishes_during_subscription_storms", 50_000),
+            ("rig_subscription_changes_during_publishing", 10_000),
             ("stalls", 20),
             ("stall_inside_frame_header", 5),
             ("resumes_after_stall", 20),
